@@ -94,35 +94,75 @@ func parseProgram(root string) *parseResult {
 				res.Panic = fmt.Sprintf("while walking the parse tree: %v\n%s", r, debug.Stack())
 			}
 		}()
-		var walk func(f *parser.Frugal, depth int)
-		walk = func(f *parser.Frugal, depth int) {
+		// Files are known by the path their include chain resolves to (relative
+		// to the root's directory, extension dropped): every includer must be
+		// served the file of ITS directory, whatever other file of the same
+		// base name has been parsed before.
+		rootDir := filepath.Dir(root)
+		var walk func(f *parser.Frugal, abs string, depth int)
+		walk = func(f *parser.Frugal, abs string, depth int) {
 			if f == nil || depth > 64 {
 				return
 			}
-			if _, seen := res.Files[f.Name]; seen {
+			key := relKey(rootDir, abs)
+			if _, seen := res.Files[key]; seen {
 				return
 			}
-			res.Files[f.Name] = dumpFrugal(f)
-			res.Trees[f.Name] = f
-			var names []string
-			for n := range f.ParsedIncludes {
-				names = append(names, n)
+			d := dumpFrugal(f)
+			res.Files[key] = d
+			res.Trees[key] = f
+			if got := relKey(rootDir, f.Path); got != key {
+				d["resolved_to_other_file"] = fmt.Sprintf("the include chain names %s, the tree handed out is that of %s", key, got)
 			}
-			sort.Strings(names)
-			for _, n := range names {
-				inc := f.ParsedIncludes[n]
-				if inc != nil && inc.Name != n {
-					res.Files[f.Name]["parsed_include_key_mismatch"] = fmt.Sprintf("ParsedIncludes[%q].Name = %q", n, inc.Name)
+			for _, inc := range f.Includes {
+				name := filepath.Base(inc.Value)
+				if k := strings.LastIndex(name, "."); k > 0 {
+					name = name[:k]
 				}
-				walk(inc, depth+1)
+				sub, ok := f.ParsedIncludes[name]
+				if !ok || sub == nil {
+					d["parsed_include_missing"] = fmt.Sprintf("ParsedIncludes has no entry %q for include %q", name, inc.Value)
+					continue
+				}
+				if sub.Name != name {
+					d["parsed_include_key_mismatch"] = fmt.Sprintf("ParsedIncludes[%q].Name = %q", name, sub.Name)
+				}
+				walk(sub, filepath.Join(filepath.Dir(abs), inc.Value), depth+1)
 			}
 		}
-		walk(o.f, 0)
+		walk(o.f, root, 0)
 	}()
 	return res
 }
 
-// reachable returns the files of p reachable from the root through includes.
+// relKey names a file by its path relative to the root's directory, with
+// slashes and without the extension ("sub/types"); for a program in one
+// directory that is the base name.
+func relKey(rootDir, abs string) string {
+	rel, err := filepath.Rel(rootDir, filepath.Clean(abs))
+	if err != nil {
+		rel = abs
+	}
+	rel = filepath.ToSlash(rel)
+	if b := filepath.Base(rel); filepath.Ext(b) != "" && filepath.Ext(b) != b {
+		rel = rel[:len(rel)-len(filepath.Ext(b))]
+	}
+	return rel
+}
+
+// fileByKey finds the file of p whose Base (a relative path without
+// extension for programs spread over directories) is key.
+func fileByKey(p *idl.Program, key string) *idl.File {
+	for _, f := range p.Files {
+		if f.Base == key {
+			return f
+		}
+	}
+	return nil
+}
+
+// reachable returns the files of p reachable from the root through includes;
+// include paths are resolved relative to the directory of the including file.
 func reachable(p *idl.Program) []*idl.File {
 	seen := map[string]bool{}
 	var out []*idl.File
@@ -134,15 +174,26 @@ func reachable(p *idl.Program) []*idl.File {
 		seen[f.Base] = true
 		out = append(out, f)
 		for _, inc := range f.Includes {
-			b := filepath.Base(inc.Path)
-			if k := strings.LastIndex(b, "."); k > 0 {
-				b = b[:k]
-			}
-			walk(p.File(b))
+			walk(fileByKey(p, relKey(".", filepath.Join(filepath.Dir(f.Base), inc.Path))))
 		}
 	}
 	walk(p.Root())
 	return out
+}
+
+// writeProgram renders every file of p under dir (sub-directories created)
+// and returns the root path.
+func writeProgram(p *idl.Program, dir string, st idl.Style) (string, error) {
+	for _, f := range p.Files {
+		path := filepath.Join(dir, filepath.FromSlash(f.FileName()))
+		if err := os.MkdirAll(filepath.Dir(path), 0o755); err != nil {
+			return "", err
+		}
+		if err := os.WriteFile(path, []byte(idl.RenderFile(f, st)), 0o644); err != nil {
+			return "", err
+		}
+	}
+	return filepath.Join(dir, filepath.FromSlash(p.Root().FileName())), nil
 }
 
 // canonProgram is the model's side: file base -> idl.Canon(file), for the
@@ -183,7 +234,13 @@ func comparePrograms(canon, dump map[string]map[string]interface{}, la, lb strin
 			if sameTree(c, d) {
 				continue
 			}
+			if r, ok := d["resolved_to_other_file"]; ok { // named first: it explains everything else that differs in this file
+				out = append(out, diff{Path: n + ".resolved_to_other_file", Kind: "includes", Leaf: "resolved_to_other_file", Text: fmt.Sprintf("%s: %v", n, r)})
+			}
 			for _, x := range diffTrees(c, d, la, lb, 8) {
+				if x.Leaf == "resolved_to_other_file" {
+					continue
+				}
 				x.Text = n + ": " + x.Text
 				out = append(out, x)
 			}
